@@ -36,7 +36,7 @@ def _lattice(K):
 
 
 def cases(tier, seed):
-    K = 16 if tier == "quick" else 64
+    K = 16 if tier == "quick" else 128
     out = []
     for model in ("GQRS", "CTW"):
         for pid in TYPES:
@@ -44,7 +44,7 @@ def cases(tier, seed):
                 out.append({"kind": "draws", "model": model, "pid": pid, "energy": e, "K": K})
     for pid in (14, -14, 16, -16):
         for e in (1e3, 1e9, 1e12):
-            out.append({"kind": "secondaries", "pid": pid, "energy": e, "bound": 2 if tier == "quick" else 3})
+            out.append({"kind": "secondaries", "pid": pid, "energy": e, "bound": 2 if tier == "quick" else 4})
     for model in ("GQRS", "CTW"):
         for pid in TYPES:
             out.append({"kind": "sigma", "model": model, "pid": pid})
